@@ -2937,7 +2937,12 @@ class AggregateBase(UnitsManaged, Saveable, OpenSystem):
         if self.sbi is None:
             return 0.0
         
-        return self.sbi.CC.get_temperature()
+        # a bath given by relaxation rates (Lindblad form) has no correlation
+        # functions and no temperature
+        if not self.sbi.has_temperature():
+            return 0.0
+        
+        return self.sbi.get_temperature()
         #
         # TESTED
 
